@@ -43,7 +43,7 @@ def floors(tier):
             "path:sequential": 10 if q else 100, "path:parallel": 6 if q else 60, "workers_killed": 10 if q else 200, "reported_cycles_verified": 20 if q else 300,
             "timeout:0": 3, "timeout:1": 3, "timeout:2": 3, "timeout:-1": 3, "timeout:120": 3, "no_child_left_checked": 30 if q else 300,
             "monitor:clock_polls": 30, "tp_cp_compared": 30 if q else 300, "virtual_strikes": 40 if q else 600,
-            "completeness_checked_by_own_enumeration": 15 if q else 200}
+            "completeness_checked_by_own_enumeration": 15 if q else 200, "structured_report_compared": 30 if q else 300}
 
 
 def plan(tier, seed):
@@ -227,6 +227,8 @@ def run_cli(argv):
         o.run(args, output_file=out)
     finally:
         args.file.close()
+        if getattr(args, "yaml_out", None) is not None:
+            args.yaml_out.close()
     return out.getvalue()
 
 
@@ -352,7 +354,8 @@ def one_run(probes, arch, fn, timeout, R, case, reference=None, expect_complete=
         old = signal.signal(signal.SIGALRM, on_alarm)
         signal.setitimer(signal.ITIMER_REAL, (3 * timeout + ABORT_MARGIN) if not probes.virtual else 120)
     try:
-        report = run_cli(["--arch", arch, "--lcd-timeout", str(timeout), "--ignore-unknown", fn])
+        # the structured report is written in the same run (its warning list is compared with the flag as well)
+        report = run_cli(["--arch", arch, "--lcd-timeout", str(timeout), "--ignore-unknown", "--yaml-out", fn + ".yaml", fn])
     except SearchNotStopped as e:
         aborted = str(e)
     except CaseTimeout:
@@ -407,6 +410,17 @@ def one_run(probes, arch, fn, timeout, R, case, reference=None, expect_complete=
         R.violation("worker-not-joined", "%d workers started, %d joined" % (len(starts), len(set(j[1] for j in joins))), case)
     if bool(inst.timed_out) != warned:
         R.violation("warning/flag-and-report-disagree", "timed_out=%s but the report %s the time-out warning" % (inst.timed_out, "shows" if warned else "does not show"), case)
+    try:
+        with open(fn + ".yaml") as fh:
+            ytext = fh.read()
+        os.unlink(fn + ".yaml")
+    except OSError:
+        ytext = None
+    if ytext and "Warnings" in ytext:
+        R.count("structured_report_compared")
+        if bool(inst.timed_out) != ("LCDWarning" in ytext):
+            R.violation("warning/flag-and-structured-report-disagree", "timed_out=%s but the structured report (--yaml-out) %s LCDWarning"
+                        % (inst.timed_out, "lists" if "LCDWarning" in ytext else "does not list"), case)
     cut = bool(kills)
     if kills and not inst.timed_out:
         R.violation("warning/missing-after-kill", "%d workers were killed but timed_out is not set" % len(kills), case)
